@@ -567,7 +567,11 @@ def check_property(pid, tier, seed):
         import concurrent.futures
         pool = concurrent.futures.ThreadPoolExecutor(max_workers=8)
         canary_futs = {u: pool.submit(canary_unit, u) for u in cfg["units"]}
-        results = [f.result() for f in [pool.submit(verify_unit, u) for u in cfg["units"]]]
+        # basis units: units that prove what this property's unit only ASSUMES about shared structure (the CONC shims assume
+        # `a map entry carries its key`, which is keys_ok of the SEQ queue contracts); they are re-verified in the same run
+        # and any failure there makes this property undecided
+        basis_units = [u for u in cfg.get("basis_units", []) if u not in cfg["units"]]
+        results = [f.result() for f in [pool.submit(verify_unit, u) for u in list(cfg["units"]) + basis_units]]
         # ---- obligations
         relevant_fail = []
         labelled = []
@@ -648,7 +652,7 @@ def check_property(pid, tier, seed):
                         continue
                     # a failure outside every extracted function is a lemma / spec-level failure of the sidecar: callers
                     # assume the lemma's statement, so every property served by the unit is affected (conservative)
-                    if not f["fn"] or f["fn"] not in fprops or f["fn"] in reach or pid in fprops.get(f["fn"], []):
+                    if r["unit"] in basis_units or not f["fn"] or f["fn"] not in fprops or f["fn"] in reach or pid in fprops.get(f["fn"], []):
                         basis_fail.append(f)
             if basis_fail:
                 cov["failed_clauses_of_other_properties_in_functions_this_proof_relies_on"] = sorted(set("%s (%s)" % (f["label"], ",".join(f["props"])) for f in basis_fail))
